@@ -37,7 +37,14 @@ def run(ctx):
         conn = BareConnection('127.0.0.1', 9042, protocol_version=v)
         log = []
         frames = []
+        # a frame's header layout (8 bytes with a 1-byte stream id below v3, 9 bytes with a 2-byte stream id from v3) is that frame's own: in some
+        # streams every frame carries its own version (what a server answering in the version it prefers produces)
+        mixed = rng.random() < 0.2
+        conn_v = v
+        if mixed:
+            ctx.count("streams_with_per_frame_versions")
         for i in range(nframes):
+            v = rng.choice([1, 2, 3, 4]) if mixed else conn_v
             is_event = rng.random() < 0.2
             if is_event:
                 kind = rng.choice(['STATUS_CHANGE', 'TOPOLOGY_CHANGE'])
@@ -106,7 +113,10 @@ def run(ctx):
         ctx.count("reads_delivered", len(bounds) - 1)
         if inside:
             ctx.count("splits_inside_a_frame")
-        if any(any(e - hl < c < e for c in cuts) for e, hl in ((ends[i] - len(frames[i][3]) + F.header_len(v), F.header_len(v)) for i in range(len(frames)))):
+        hls = [F.header_len(f[3][0] & 0x7f) for f in frames]
+        if len(set(hls)) > 1:
+            ctx.count("streams_mixing_8_and_9_byte_headers")
+        if any(any(e - hl < c < e for c in cuts) for e, hl in ((ends[i] - len(frames[i][3]) + hls[i], hls[i]) for i in range(len(frames)))):
             ctx.count("splits_inside_a_header")
         wit = {"version": v, "frames": [(f[0], f[1], len(f[3])) for f in frames], "cuts": cuts[:50], "how": label}
         fed = 0
@@ -186,5 +196,5 @@ def run(ctx):
             return [rng.randrange(1, max(2, total)) for _ in range(k)]
         run_split(v, nfr, rng.random() < 0.5, cuts_fn, "random cuts")
     ctx.floor_distinct = 3000 if ctx.quick else 40000
-    ctx.floor_counters = {"frames_delivered_exactly": 5000, "splits_inside_a_header": 1000, "streams_with_all_single_cuts_enumerated": 8,
+    ctx.floor_counters = {"streams_mixing_8_and_9_byte_headers": 300, "frames_delivered_exactly": 5000, "splits_inside_a_header": 1000, "streams_with_all_single_cuts_enumerated": 8,
                           "event_frames_on_a_negative_stream_other_than_minus_one": 50}
